@@ -154,3 +154,38 @@ def describe_vector(lib, body, o, terms):
             continue
         return None
     return out
+
+
+PER_ITEM = ("std::iter::Iterator::map", "std::iter::Iterator::filter_map", "std::iter::Iterator::for_each",
+            "std::iter::Iterator::try_for_each", "std::iter::Iterator::flat_map", "std::iter::Iterator::try_fold",
+            "std::iter::Iterator::fold")
+
+
+def call_sites(lib, body, o, callee):
+    """Every call of `callee` made by `body` — directly, or inside a closure that body hands to a per-item iterator adapter.
+    Returns [(argument term sets in body's own terms (closure argument = element of the sequence iterated), span)]."""
+    out = []
+    for bb, t in body.calls():
+        if t["callee"] == callee:
+            out.append(([o.of_operand(a) for a in t["args"]], t["span"]["s"]))
+    for bb, i, st in body.stmts():
+        if not (st["k"] == "assign" and st["rv"]["k"] == "agg" and st["rv"].get("ak") == "closure" and not st["place"]["p"]):
+            continue
+        cb = lib.fn(st["rv"]["def"])
+        if cb is None or cb.j.get("fully_spliced") or not any(t["callee"] == callee for _, t in cb.calls()):
+            continue
+        cl = st["place"]["l"]
+        mapping = {}
+        for k, op in enumerate(st["rv"]["ops"]):
+            ops = frozenset(o.of_operand(op))
+            mapping[("field", ("closure_env",), str(k))] = next(iter(ops)) if len(ops) == 1 else ("oneof", ops)
+        for ub, ut in body.calls():
+            if any(a.get("k") in ("copy", "move") and not a.get("p") and a["l"] == cl for a in ut["args"]) and ut["callee"] in PER_ITEM:
+                bases = {iter_base(src) for src in o.of_operand(ut["args"][0])}
+                if len(bases) == 1 and None not in bases:
+                    mapping[("param", 2)] = ("elem", next(iter(bases)))
+        co = Origins(cb, lib)
+        for _, t in cb.calls():
+            if t["callee"] == callee:
+                out.append(([{subst(z, mapping) for z in co.of_operand(a)} for a in t["args"]], t["span"]["s"]))
+    return out
